@@ -35,6 +35,43 @@ if TYPE_CHECKING:
     from gemseo.core.discipline import Discipline
 
 
+def _reset_failed_status(discipline: Discipline) -> None:
+    """Make a discipline executable again after a failed task.
+
+    A worker can execute the same discipline for several tasks.
+    The failure of one task sets the execution status of the discipline to ``FAILED``,
+    which would prevent the following tasks of this worker from being executed.
+
+    Args:
+        discipline: The discipline.
+    """
+    execution_status = discipline.execution_status
+    if execution_status.value == execution_status.Status.FAILED:
+        execution_status.value = execution_status.Status.DONE
+
+
+class _Functor:
+    """A functor to call a discipline execution."""
+
+    def __init__(self, discipline: Discipline) -> None:
+        """
+        Args:
+            discipline: The discipline to get a callable from.
+        """  # noqa:D205 D212 D415
+        self.__disc = discipline
+
+    def __call__(self, inputs: StrKeyMapping) -> DisciplineData:
+        """
+        Args:
+            inputs: The inputs of the discipline.
+
+        Returns:
+            The discipline :attr:`.Discipline.io.data`.
+        """  # noqa:D205 D212 D415
+        _reset_failed_status(self.__disc)
+        return self.__disc.execute(inputs)
+
+
 class DiscParallelExecution(CallableParallelExecution[StrKeyMapping, DisciplineData]):
     """Execute disciplines in parallel."""
 
@@ -54,7 +91,7 @@ class DiscParallelExecution(CallableParallelExecution[StrKeyMapping, DisciplineD
             disciplines: The disciplines to execute.
         """  # noqa:D205 D212 D415
         super().__init__(
-            workers=[d.execute for d in disciplines],
+            workers=[_Functor(d) for d in disciplines],
             n_processes=n_processes,
             use_threading=use_threading,
             wait_time_between_fork=wait_time_between_fork,
